@@ -91,6 +91,42 @@ def write_project(root, imports, exists, flavour=0):
     return os.path.join(root, "main.gom")
 
 
+# accepted programs in which every table the compiler keeps has five or more entries (externs of five Go packages, extern types,
+# structs, enums, traits, impls, generic instances, closures, tuple / array / Ref helper types, dyn pairs, derives): whatever is
+# iterated in hash order somewhere shows up as a different text under another seed
+def _wide():
+    gos = [("strings", "ToUpper", "(s: string) -> string"), ("os", "Getenv", "(s: string) -> string"), ("path", "Base", "(s: string) -> string"),
+           ("html", "EscapeString", "(s: string) -> string"), ("strconv", "Quote", "(s: string) -> string"), ("unicode/utf8", "RuneCountInString", "(s: string) -> int32")]
+    L = ["package Main", ""]
+    for i, (pkg, fn_, sig) in enumerate(gos):
+        L.append(f'extern "go" "{pkg}" "{fn_}" ext{i}{sig}')
+    names = ["Alpha", "Beta", "Gamma", "Delta", "Eps", "Zeta"]
+    for i, n in enumerate(names):
+        L.append(f"#[derive(ToString, ToJson)]\nstruct {n} {{ v{i}: int32, w{i}: string }}")
+        L.append(f"enum {n}E {{ {n}A, {n}B(int32), {n}C({n}) }}")
+        L.append(f"trait {n}T {{ fn {n.lower()}_m(Self) -> int32; }}")
+    for i, n in enumerate(names):
+        for j, m in enumerate(names):
+            if (i + j) % 2 == 0:
+                L.append(f"impl {n}T for {m} {{ fn {n.lower()}_m(self: {m}) -> int32 {{ self.v{j} + {i} }} }}")
+    L.append("enum Opt[T] { Non, Som(T) }\nfn idg[T](x: T) -> T { x }\nfn pairg[A, B](a: A, b: B) -> (A, B) { (a, b) }")
+    L.append("fn main() -> unit {")
+    for i, n in enumerate(names):
+        L.append(f"    let s{i} = {n} {{ v{i}: {i}, w{i}: ext{i % 5}(\"x{i}\") }};")
+        L.append(f"    let d{i}: dyn {n}T = s{i};")
+        L.append(f"    let c{i} = |k: int32| k + s{i}.v{i} + {n}T::{n.lower()}_m(d{i});")
+        L.append(f"    let o{i} = idg(Opt::Som(s{i}));")
+        L.append(f"    let t{i} = pairg(s{i}, ({i}, [c{i}({i}), {i}], ref({n}E::{n}B({i}))));")
+        L.append(f"    let _ = string_println(s{i}.to_string() + s{i}.to_json() + int32_to_string(c{i}(1)));")
+    L.append("    let _ = string_println(int32_to_string(ext5(\"abc\")));")
+    L.append("    ()\n}")
+    return "\n".join(L) + "\n"
+
+
+WIDE_PROJECTS = {"wide_tables": {"main.gom": _wide()},
+                 "externs_of_six_go_packages": {"main.gom": "package Main\n\n" + "".join(f'extern "go" "{p_}" "{f_}" e{i}(s: string) -> string\n' for i, (p_, f_) in enumerate(
+                     [("strings", "ToUpper"), ("os", "Getenv"), ("path", "Base"), ("html", "EscapeString"), ("strconv", "Quote"), ("net/url", "QueryEscape")]))
+                     + "fn main() -> unit {\n    let _ = string_println(e0(e1(e2(e3(e4(e5(\"a\")))))));\n    ()\n}\n"}}
 ERR_PROJECTS = {
     # two reported items each, so that diagnostic *order* is exercised
     "two_type_errors": {"main.gom": "package Main\nimport A\nimport B\nfn f() -> int32 { true }\nfn g() -> bool { 1 }\nfn main() { let _ = A::fa(1); let _ = B::fb(1); () }\n",
@@ -431,6 +467,13 @@ def run(tier, rep):
             open(os.path.join(d, rel), "w").write(txt)
         reqs.append({"id": "err_" + name, "path": os.path.join(d, "main.gom"), "dumps": True, "disc": False})
         meta.append(("err", name))
+    for name, files in WIDE_PROJECTS.items():
+        d = os.path.join(root, "wide_" + name)
+        for rel, txt in files.items():
+            os.makedirs(os.path.dirname(os.path.join(d, rel)), exist_ok=True)
+            open(os.path.join(d, rel), "w").write(txt)
+        reqs.append({"id": "wide_" + name, "path": os.path.join(d, "main.gom"), "dumps": True, "disc": False})
+        meta.append(("wide", name))
     for d in sorted(glob.glob(os.path.join(CORPUS, "*"))) + sorted(glob.glob(os.path.join(PKG_CORPUS, "*"))):
         if os.path.exists(os.path.join(d, "main.gom")):
             reqs.append({"id": "corpus_" + os.path.basename(d), "path": os.path.join(d, "main.gom"), "dumps": True, "disc": False})
